@@ -459,12 +459,9 @@ func (c *FnCtx) callByContract(st *State, fs *FuncSpec, sig *types.Signature, re
 		}
 		results = append(results, v)
 	}
-	// heaps the callee may allocate in / write to
-	keys := map[string]string{}
-	seen := map[string]bool{}
-	for i := 0; i < nres; i++ {
-		c.heapKeysOf(sig.Results().At(i).Type(), seen, keys)
-	}
+	// heaps the callee may write to.  A callee that assigns nothing needs no new heap version:
+	// memory it allocates lies at references >= the current allocation counter, where the
+	// current heaps are still unconstrained, and its postcondition describes it there.
 	var except []Val
 	if fs.Assigns != "" && fs.Assigns != "nothing" {
 		for _, item := range splitTop(fs.Assigns, ',') {
@@ -476,7 +473,38 @@ func (c *FnCtx) callByContract(st *State, fs *FuncSpec, sig *types.Signature, re
 			except = append(except, pre.eval(ex))
 		}
 	}
-	if fs.Assigns != "nothing" {
+	keys := map[string]string{}
+	seen := map[string]bool{}
+	switch {
+	case fs.Assigns == "nothing":
+	case fs.Assigns != "":
+		for _, e := range except {
+			switch e.K {
+			case KPtr:
+				if e.Elem != nil {
+					c.heapKeysOf(types.NewPointer(e.Elem), seen, keys)
+					// only the pointer's own fields
+					for k := range keys {
+						if !strings.HasPrefix(k, "P_"+c.elemKey(e.Elem)) {
+							delete(keys, k)
+						}
+					}
+				}
+			case KSlice:
+				if e.Elem != nil {
+					ek := c.elemKey(e.Elem)
+					c.w.proto(e.Elem, "", func(path, sort string) string {
+						keys[ek+path] = sort
+						heapSorts[ek+path] = sort
+						return ""
+					})
+				}
+			}
+		}
+	default:
+		for i := 0; i < nres; i++ {
+			c.heapKeysOf(sig.Results().At(i).Type(), seen, keys)
+		}
 		for i := 0; i < sig.Params().Len(); i++ {
 			c.heapKeysOf(sig.Params().At(i).Type(), seen, keys)
 		}
@@ -511,9 +539,7 @@ func (c *FnCtx) callByContract(st *State, fs *FuncSpec, sig *types.Signature, re
 			}
 		}
 	}
-	if len(ks) > 0 || fs.Allocates {
-		c.bumpAlloc(st)
-	}
+	c.bumpAlloc(st)
 	for _, r := range results {
 		c.refsBelow(st, r, st.alloc)
 	}
